@@ -325,7 +325,13 @@ func (h *SimH) do(q *Req, c flamego.Context, rw http.ResponseWriter, r *http.Req
 	case OpFlush:
 		if f, ok := rw.(http.Flusher); ok {
 			attempt()
-			f.Flush()
+			if a.A%2 == 1 {
+				// the way handlers written against Go 1.20+ flush: through a ResponseController, which
+				// prefers FlushError() and unwraps writers that offer Unwrap()
+				_ = http.NewResponseController(rw).Flush()
+			} else {
+				f.Flush()
+			}
 		}
 	case OpMapIface:
 		if c != nil {
